@@ -625,6 +625,28 @@ class IDeque(collections.deque):
         self.ctx.point("bool")
         return len(self) > 0
 
+    # every other way of looking at or emptying the shared deque is a scheduling point too (the code as it
+    # is uses none of them; a rewrite of the pump that does can be interleaved with the producers)
+    def __iter__(self):
+        self.ctx.point("iter")
+        return iter(list(collections.deque.__iter__(self)))
+
+    def clear(self):
+        self.ctx.point("clear")
+        return super().clear()
+
+    def copy(self):
+        self.ctx.point("copy")
+        return collections.deque(collections.deque.__iter__(self))
+
+    def pop(self):
+        self.ctx.point("popright")
+        return super().pop()
+
+    def __getitem__(self, index):
+        self.ctx.point("getitem")
+        return super().__getitem__(index)
+
 
 class PlainConn:
     def __init__(self):
